@@ -36,7 +36,7 @@ ASSUMPTIONS = ['exact apply-time oracle only on exactly representable grids and 
 def gen(r, tier, i):
     k = r.random()
     cls = 'exact' if k < 0.5 else 'weak'
-    par = r.random() < (0.01 if tier == 'thorough' else 0.001)
+    par = r.random() < (0.01 if tier == 'thorough' else 0.005)
     if cls == 'exact':
         if r.random() < 0.7:
             grid, prec = 'dyadic', None
